@@ -15,22 +15,27 @@ import Sqfs.Model.TarConv
 namespace Sqfs.Tar
 open Sqfs.Path (joinSlash splitSlash SL)
 
-/-- fold of `process_tarball` over the iterator's entries on the flat tree; `none` = tar2sqfs fails.  Second component:
-    the device numbers handed to `fstree_add_generic` (the flat node does not carry them). -/
+/-- one round of `process_tarball`'s loop on the flat tree: `read_link`, `process_entry`, `fstree_add_generic`; `none` = tar2sqfs
+    fails.  Second component: the device numbers handed to `fstree_add_generic` (the flat node does not carry them). -/
+def convStep (pe : ConvOpts → CEntry → Action) (o : ConvOpts) (acc : Option (List TNode × List (List Bytes × Nat × Nat)))
+    (x : IterEntry) : Option (List TNode × List (List Bytes × Nat × Nat)) :=
+  match acc with
+  | none => none
+  | some (t, devs) =>
+    let link := if fmt x.mode = S_IFLNK then x.link else none
+    if fmt x.mode = S_IFLNK ∧ link.isNone then none                      -- `read_link` fails: no target
+    else
+    match pe o ⟨x.name, x.mode, x.uid, x.gid, x.mtime, x.hardLink, link, x.devMajor, x.devMinor⟩ with
+    | .skip => some (t, devs)
+    | .root e => if e.hardLink ∨ fmt e.mode ≠ S_IFDIR ∨ e.uid > 0xFFFFFFFF ∨ e.gid > 0xFFFFFFFF then none else some (t, devs)
+    | .node e => match addGeneric o t e with
+      | none => none
+      | some t' => some (t', devs ++ [(Sqfs.Path.splitSlash e.name, x.devMajor, x.devMinor)])
+
+/-- fold of `process_tarball` over the iterator's entries on the flat tree -/
 def convertWith (pe : ConvOpts → CEntry → Action) (o : ConvOpts) (es : List IterEntry) :
     Option (List TNode × List (List Bytes × Nat × Nat)) :=
-  es.foldl (fun acc x => match acc with
-    | none => none
-    | some (t, devs) =>
-      let link := if fmt x.mode = S_IFLNK then x.link else none
-      if fmt x.mode = S_IFLNK ∧ link.isNone then none                      -- `read_link` fails: no target
-      else
-      match pe o ⟨x.name, x.mode, x.uid, x.gid, x.mtime, x.hardLink, link, x.devMajor, x.devMinor⟩ with
-      | .skip => some (t, devs)
-      | .root e => if e.hardLink ∨ fmt e.mode ≠ S_IFDIR ∨ e.uid > 0xFFFFFFFF ∨ e.gid > 0xFFFFFFFF then none else some (t, devs)
-      | .node e => match addGeneric o t e with
-        | none => none
-        | some t' => some (t', devs ++ [(Sqfs.Path.splitSlash e.name, x.devMajor, x.devMinor)])) (some ([], []))
+  es.foldl (convStep pe o) (some ([], []))
 
 /-- `tar2sqfs` up to the tree: iterate the archive (every regular file read to its end), convert; `none` = failure -/
 def tar2sqfsTree (o : ConvOpts) (archive : Bytes) : Option (List TNode × List (List Bytes × Nat × Nat)) :=
